@@ -35,7 +35,7 @@ theorem pkgAt_of_pkgOf {g : Graph} {id : PkgId} {d : PkgDef} (h : g.pkgOf id = .
 /-- what an edge needs from its endpoints survives: same package, item kind, node class, and
     the satisfied set may only grow -/
 def WSim (a b : Node) : Prop :=
-  b.pkg = a.pkg ∧ b.item = a.item ∧ b.isAlias = a.isAlias ∧ b.isInst = a.isInst ∧ b.isDef = a.isDef ∧
+  b.pkg = a.pkg ∧ b.item = a.item ∧ b.isAlias = a.isAlias ∧ b.isInst = a.isInst ∧ b.defTy = a.defTy ∧
   ∀ j ∈ a.sat, j ∈ b.sat
 
 theorem WSim.refl (a : Node) : WSim a a := ⟨rfl, rfl, rfl, rfl, rfl, fun _ h => h⟩
@@ -86,7 +86,7 @@ theorem inv_setArg_new {ctx : Ctx} {g g' : Graph} {inst arg i : Nat} {nd argNd :
     refine ⟨rfl, rfl, ?_, ?_, ?_, ?_⟩
     · simp [nd', Node.isAlias, hk]
     · simp [nd', Node.isInst, hk]
-    · simp [nd', Node.isDef, hk]
+    · simp [nd', Node.defTy, hk]
     · intro j hj
       rw [hsatOld] at hj
       simp [nd', Node.sat, hj]
